@@ -239,6 +239,8 @@ class FreshRule:
                                 cnt[b] = cnt.get(b, 0) + 1
                                 if isinstance(x, ast.Name) and len(s.targets) == 1 and isinstance(t, ast.Name):
                                     val[b] = s.value
+                                elif isinstance(x, ast.Name) and len(s.targets) == 1 and isinstance(t, (ast.Tuple, ast.List)) and isinstance(s.value, ast.Call):
+                                    val[b] = s.value  # U, S, V = svd(E): each component is computed from E
                 elif isinstance(s, (ast.AugAssign, ast.For)):
                     for x in flat_targets(s.target):
                         b = base_name(x)
